@@ -23,7 +23,15 @@
 (*     to) the interface `via` whose alias / qualified name is `ref`;      *)
 (*     nothing else is ever returned; none -> missing (0);                 *)
 (*   - for a collision-free set of classes the answer to every lookup is   *)
-(*     a function of the SET registered so far, not of the order.          *)
+(*     a function of the SET registered so far, not of the order;          *)
+(*   - a reference nobody provides is missing WHATEVER IT LOOKS LIKE: the  *)
+(*     module path it names (a qualified name), or that the search path of *)
+(*     the interface makes of it (an alias, possibly dotted), may be       *)
+(*     absent from the installed module tree at any of its segments - the  *)
+(*     leaf module, a parent package, the top-level package - or be        *)
+(*     installed and simply not define that provider; and a search path    *)
+(*     configured on the interface may itself not be installed (GhostsAll).*)
+(*     None of this is visible in the answer (URefs, UnknownMissing).      *)
 (***************************************************************************)
 EXTENDS Integers, Sequences, FiniteSets, TLC, Json
 CONSTANTS N,            \* classes per universe
@@ -64,6 +72,20 @@ AncOf(cs, c) == IF c = 0 THEN {0} ELSE {c} \cup AncOf(cs, cs[c].par)
 RECURSIVE CloOf(_, _)
 CloOf(cs, m) == {m} \cup UNION {CloOf(cs, cs[cs[c].par].mod) :
                                   c \in {d \in 1..Len(cs) : cs[d].mod = m /\ cs[d].par # 0 /\ cs[cs[d].par].mod # m}}
+(**************************** module namespace *****************************)
+\* A dotted module path relative to what is installed: shape <<s, e>> = s segments of which exactly the first e
+\* are installed.  e < s: segment e + 1 is absent (the leaf when e = s - 1, else a parent package; e = 0: the
+\* top-level package); e = s: the module is installed (and provides nothing that is looked up through it).
+MaxSegs == 3
+Shapes == {sh \in (1..MaxSegs) \X (0..MaxSegs) : sh[2] <= sh[1]}
+Absent == {sh \in Shapes : sh[2] < sh[1]}
+\* The root interface may be configured, next to its search package, with a search path that is not installed
+\* (NoGhost: it is not).  The requirement does not mention that configuration anywhere: every behaviour and every
+\* lookup table below is required under each element of GhostsAll alike (the replay draws one per behaviour, a
+\* recorded trace names its own; the as-is model BankImpl!IGetUnknown is checked for all of them).
+NoGhost == <<0, 0>>
+GhostsAll == {NoGhost} \cup Absent
+
 Uni(cs, nm) == [cls |-> cs, name |-> nm, anc |-> [c \in 1..Len(cs) |-> AncOf(cs, c)],
                 clo |-> [m \in 1..Len(nm) |-> CloOf(cs, m)]]
 Universes ==
@@ -81,8 +103,18 @@ Concrete(c) == ~u.cls[c].abs
 Legal(c) == ~(u.cls[c].abs /\ u.cls[c].al # 0)
 \* reference kinds: 1 = alias n, 2 = qualified name of class n (n up to N + 1: one unknown of each kind)
 Refs == {<<1, n>> : n \in 1..(A + 1)} \cup {<<2, n>> : n \in 1..(Len(u.cls) + 1)}
-Matches(c, r) == IF r[1] = 1 THEN u.cls[c].al = r[2] ELSE c = r[2]
-Found(S, via, r) == {c \in S : Concrete(c) /\ via \in AncSelf(c) /\ Matches(c, r)}
+\* references nobody provides, by the shape of the module path they lead to:
+\*   kind 3 = qualified name: module path of shape <<s, e>>, class name = the name of class k of the universe
+\*            (k = 0: a name no class has); number 100 s + 10 e + k.  The module is never the one of class k.
+\*   kind 4 = alias of s <= 2 segments (dotted when s = 2) no class carries; <search package>.<alias> has the
+\*            first e alias segments installed; number 10 s + e
+URefsOf(ks) == {<<3, 100 * sh[1] + 10 * sh[2] + k>> : sh \in Shapes, k \in ks}
+                   \cup {<<4, 10 * sh[1] + sh[2]>> : sh \in {x \in Shapes : x[1] <= 2}}
+\* (model checking / export: a fresh class name and, standing for the names in use, the one of class 1;
+\*  recorded traces take any k in 0..number of classes)
+URefs == URefsOf({0, 1})
+Matches(c, r) == IF r[1] = 1 THEN u.cls[c].al = r[2] ELSE IF r[1] = 2 THEN c = r[2] ELSE FALSE
+Found(S, via, r) == {c \in S : Matches(c, r) /\ Concrete(c) /\ via \in AncSelf(c)}
 One(S) == IF S = {} THEN 0 ELSE CHOOSE c \in S : TRUE
 Look(via, r) == One(Found(acc, via, r))
 
@@ -94,6 +126,7 @@ ClassesOf(ms) == {c \in Cls : u.cls[c].mod \in ms}
 \* name, or - through the root only, which owns the search path - the module called like the alias
 Discovers(via, r) ==
     IF r[1] = 2 THEN (IF r[2] \in Cls THEN u.cls[r[2]].mod ELSE 0)
+    ELSE IF r[1] # 1 THEN 0      \* (kinds 3, 4: whatever is installed along that path holds no class of the universe)
     ELSE IF via = 0 /\ \E m \in Mods : u.name[m] = r[2] THEN CHOOSE m \in Mods : u.name[m] = r[2] ELSE 0
 \* requirement for a lookup in a world where modules are imported lazily:
 \*   must: the answer when the matching class is registered or discoverable by this very lookup
@@ -158,9 +191,12 @@ Spec == Init /\ [][Next]_vars
 SingleClass == \A v \in Vias, r \in Refs : Cardinality(Found(acc, v, r)) <= 1
 AbstractNeverReturned == \A v \in Vias, r \in Refs : Look(v, r) # 0 => Concrete(Look(v, r))
 \* only what was accepted is ever returned; references nobody registered are missing
-UnknownMissing == \A v \in Vias, r \in Refs :
+UnknownMissing == /\ \A v \in Vias, r \in Refs :
                       /\ Look(v, r) # 0 => (Look(v, r) \in acc /\ Matches(Look(v, r), r) /\ v \in AncSelf(Look(v, r)))
                       /\ (r[2] = (IF r[1] = 1 THEN A + 1 ELSE Len(u.cls) + 1)) => Look(v, r) = 0
+                  \* ... of whatever shape, eagerly or lazily, whatever search path is configured
+                  \* (no class of the whole universe answers to it; Look, Must and Whole select from subsets of Cls)
+                  /\ \A r \in URefs : Discovers(0, r) = 0 /\ \A v \in Vias : Found(Cls, v, r) = {} /\ Look(v, r) = 0
 \* rejected registrations: exactly the illegal ones and those whose alias was taken before; first one wins
 Tried == IF UseModules THEN acc ELSE Range(att)
 CollisionsRejected ==
@@ -182,4 +218,8 @@ LazySound == UseModules => \A v \in Vias, r \in Refs :
 Done == IF UseModules THEN (imp = Mods \/ (DoExport /\ hist # <<>> /\ hist[Len(hist)].op = "get"))
         ELSE ~(\E c \in Cls : CanRegister(c))
 Export == (DoExport /\ Done) => PrintT(ToJson([cls |-> u.cls, name |-> u.name, acc |-> acc, hist |-> hist, table |-> Table]))
+\* printed once (constant sets): the references every exported table is silent about for a reason of their own -
+\* "missing" is required for each of them through every interface - and the search path configurations of the root
+\* interface under each of which every exported behaviour is required
+ASSUME DoExport => PrintT(ToJson([urefs |-> URefs, ghosts |-> GhostsAll]))
 =============================================================================
